@@ -821,8 +821,44 @@ func (p *c09) Describe(tier string, seed int64, idx int) string {
 	return fmt.Sprintf("C09 case %d", idx)
 }
 
+// c09OtherConfiguration: a parse under another configuration of extension cardinalities (every list has to carry a
+// configd:help, a container may carry a configd:priority), made before the texts of every case.  What Parse
+// says about a text depends on the text and on the configuration handed to that call, not on earlier calls.
+func c09OtherConfiguration(res *core.CaseResult) {
+	card := func(nt parse.NodeType) map[parse.NodeType]parse.Cardinality {
+		switch nt {
+		case parse.NodeList:
+			return map[parse.NodeType]parse.Cardinality{parse.NodeConfigdHelp: {Start: '1', End: '1'}}
+		case parse.NodeContainer, parse.NodeLeaf:
+			return map[parse.NodeType]parse.Cardinality{parse.NodeConfigdPriority: {Start: '0', End: '1'}}
+		}
+		return nil
+	}
+	const head = "module m {\n  namespace urn:m;\n  prefix m;\n"
+	texts := []struct {
+		text string
+		ok   bool
+	}{
+		{head + "  container c { configd:priority 300; leaf x { type string; configd:priority 2; } }\n}\n", true},
+		{head + "  list l { key k; leaf k { type string; } configd:help \"h\"; }\n}\n", true},
+		{head + "  list l { key k; leaf k { type string; } }\n}\n", false},
+	}
+	for _, t := range texts {
+		var err error
+		pan, msg, _ := core.Guard(func() { _, err = parse.Parse("c09-other.yang", t.text, card) })
+		res.Ev("parses_under_another_extension_configuration", 1)
+		switch {
+		case pan:
+			res.Fail("C09/panic", t.text, msg)
+		case (err == nil) != t.ok:
+			res.Fail("C09/extension-configuration-not-honoured", t.text, fmt.Sprintf("expected accepted=%v under the configuration of this call; error: %v", t.ok, err))
+		}
+	}
+}
+
 func (p *c09) Run(tier string, seed int64, idx int) core.CaseResult {
 	var res core.CaseResult
+	c09OtherConfiguration(&res)
 	if idx < len(c09TripleList) {
 		t := c09TripleList[idx]
 		root, exp := c09BuildTriple(t)
